@@ -90,6 +90,12 @@ DeleteVertsViolWith(s, I, t, m) ==
                \* (partitions that became empty are removed and the others move down: labels compare by their rank)
                Rank(q) == [j \in 1..Len(q) |-> Cardinality({x \in ToSet(q) : x < q[j]})]
            IN  Rank(t.triParts) = Rank([j \in 1..Len(K) |-> s.triParts[K[j]]]), "PartitionLabelsFollowTheirTriangles")
+    \* ... and keeps its body part: the dismember entry of its partition carries the same id as before
+    \cup V((t.nv = 0 \/ s.isStrips \/ ~s.isDismember \/ ~t.isDismember \/ Len(s.triParts) = 0 \/ Len(s.triParts) # Len(s.tris) \/ Len(t.triParts) # Len(t.tris)
+            \/ ~IdxOK(SelectSeq(s.triParts, LAMBDA x : x >= 0), Len(s.dismember)) \/ ~IdxOK(SelectSeq(t.triParts, LAMBDA x : x >= 0), Len(t.dismember))) \/
+           LET K == SelectSeq([k \in 1..Len(s.tris) |-> k], LAMBDA k : \A c \in 1..3 : m[s.tris[k][c] + 1] >= 0)
+               Body(x, lab) == IF lab < 0 THEN -1 ELSE x.dismember[lab + 1][1]
+           IN  Len(K) # Len(t.triParts) \/ \A j \in 1..Len(K) : Body(t, t.triParts[j]) = Body(s, s.triParts[K[j]]), "BodyPartsFollowTheirTriangles")
     \* the locked-normal list (ascending) names the same vertices as before, minus the deleted ones
     \cup V((t.nv = 0 \/ Len(s.locked) = 0 \/ ~(\A k \in 1..(Len(s.locked) - 1) : s.locked[k] < s.locked[k + 1]) \/ ~IdxOK(s.locked, s.nv)) \/
            LET K == SelectSeq(s.locked, LAMBDA x : m[x + 1] >= 0) IN t.locked = [j \in 1..Len(K) |-> m[K[j] + 1]], "LockedNormalsFollowTheirVertices")
